@@ -20,7 +20,8 @@ for m in muts:
         open(path, "w").write(src.replace(m["old"], m["new"]))
         row = {"name": m["name"], "results": {}}
         for pid in m["expect"] + m.get("quiet", []):
-            p = subprocess.run([os.path.join(ROOT, "check"), pid, "quick"], capture_output=True, text=True, cwd=ROOT)
+            p = subprocess.run([os.path.join(ROOT, "check"), pid, "quick"], capture_output=True, text=True, cwd=ROOT,
+                               env=dict(os.environ, VERIF_EVIDENCE_DIR=os.path.join(ROOT, "out", "selftest_evidence")))
             obl = [l.split(": ", 1)[1] for l in p.stdout.split("\n") if l.startswith("failed obligation")]
             row["results"][pid] = {"rc": p.returncode, "obligations": obl[:6]}
             want = 1 if pid in m["expect"] else 0
